@@ -22,7 +22,7 @@ const TOKENS: [&str; 30] = [
 const MODIFIER_TOKENS: [usize; 12] = [7, 8, 9, 10, 11, 12, 19, 20, 21, 22, 23, 24];
 
 /// Strings outside any reference model's domain.
-const WILD: [&str; 72] = [
+const WILD: [&str; 85] = [
     "é", "ééé", "日本", "1é2", "é1", "1é", "ß", "Ⅷ", "１", "١٢٣", "ǅ", "İ", "ı", "K",
     "9999999999999999999", "99999999999999999999", "9999999999999999999999999999999999999999",
     "9223372036854775807", "9223372036854775808", "9223372036854775806",
@@ -33,6 +33,10 @@ const WILD: [&str; 72] = [
     "1__2", "alphabeta", "prerc", "plpl", "nbnb", "nb1nb2", "1nb", "NB5", "0x10", "1e10", "1.0e3x",
     "*", "?", "[1]", "1*", "\\", "\"", "'", "1/2", ":", ";", "|", "1|2", "\u{0}", "1\u{0}2", "\u{7f}",
     "\u{85}", "\u{a0}1", "\u{feff}1",
+    // integer-width thresholds and versions with many components
+    "2147483647", "2147483648", "4294967295", "4294967296", "1.2147483648", "1nb4294967296", "9007199254740993",
+    "1.0.0.0.0.0.0.0.0.0.0.0", "1.0.0.0.0.0.0.0.0.0.0.0.1", "1.0.0.0.0.0.0.0.0nb1", "1.1.1.1.1.1.1.1.1.1.1.1.1.1.1.1.1.1.1.1",
+    "1.1.1.1.1.1.1.1.1.1.1.1.1.1.1.1.1.1.1.2", "1.0.0.0.0.0.0.0.0rc1",
 ];
 
 fn token_versions(max: usize, only_interesting: bool) -> Vec<String> {
@@ -205,7 +209,7 @@ fn main() {
     }
     run.rule(
         "carrier V = every version of <=2 tokens of the C01 alphabet, (thorough: plus every \
-         3-token version containing a modifier or nb), plus 72 strings outside any model's domain \
+         3-token version containing a modifier or nb), plus 85 strings outside any model's domain or beyond the token bound (integer-width thresholds, 12-20 components) \
          (non-ASCII, 19/20/40-digit runs, punctuation, blanks, NUL). R_op(A,B) computed by one real \
          Pattern call per ordered pair and operator. Laws checked on the matrix over every pair and \
          every triple of V: trichotomy, duality (<= is not >, >= is not <), reflexivity, placement \
